@@ -144,7 +144,11 @@ func (dm *DMap) Lock(ctx context.Context, key string, timeout, deadline time.Dur
 
 	var pc PutConfig
 	pc.HasNX = true
-	if timeout.Milliseconds() != 0 {
+	if timeout > 0 {
+		// The expiry is kept and forwarded in milliseconds. A shorter timeout is not "no timeout".
+		if timeout < time.Millisecond {
+			timeout = time.Millisecond
+		}
 		pc.HasPX = true
 		pc.PX = timeout
 	}
